@@ -660,6 +660,13 @@ func Gen(prop, tier string, seed, run uint64) Plan {
 	if p.Loopback {
 		mutOps = append([]Op{{C: CMut, K: "AddEndpoint", Addr: "LOOPBACK"}}, mutOps...)
 	}
+	if (prop == "C09" || prop == "C16") && len(p.Converters) > 0 && !p.ConvFail && !p.ConvDie && !p.ConvGarble && r.IntN(8) == 0 {
+		// nine and more restarts of one converter, each after an on-demand conversion
+		c := p.Converters[r.IntN(len(p.Converters))]
+		for i, m := 0, 9+r.IntN(4); i < m; i++ {
+			mutOps = append(mutOps, Op{C: CMut, K: "ConvertAndReset", Conv: c, Stream: uint64(r.IntN(nStreams + 1))})
+		}
+	}
 	if prop == "C09" && run%7 == 6 && len(p.Converters) > 0 {
 		// conversion storm (real-time overlap of API calls, see control.go): in the second half of the calls
 		at := len(mutOps)/2 + r.IntN(len(mutOps)/2+1)
